@@ -15,6 +15,23 @@ def verbOf (l : Bytes) : Bytes := toUpper ((l.takeWhile (fun b => b != 32 && b !
 def plainAllowed (v : Bytes) : Bool :=
   v == "EHLO".b || v == "HELO".b || v == "LHLO".b || v == "STARTTLS".b || v == "QUIT".b || v == "NOOP".b || v == "RSET".b
 
+/-- capability keywords of an EHLO reply chunk (`250-greeting`, then one keyword line each) -/
+def ehloKeys (chunk : Bytes) : Option (List Bytes) :=
+  let ls := linesOf chunk |>.map (fun l => if l.getLast? == some 13 then l.dropLast else l)
+  if ls.isEmpty || !ls.all (fun l => "250".b.isPrefixOf l) then none
+  else some ((ls.drop 1).map fun l => toUpper ((l.drop 4).takeWhile (· != 32)))
+
+/-- "the client renegotiates EHLO after the upgrade instead of trusting plaintext capabilities", observed on
+    `Extension(name)` calls made inside an established TLS session whose EHLO was answered with a plain 250 reply:
+    the answer is what that reply says — not what was said in plaintext, before or behind the 220 -/
+def checkExt (tls : String) (innerEhlo : Bytes) (exts : List (Bytes × String)) : List String :=
+  if tls != "ok" then [] else
+  match ehloKeys innerEhlo with
+  | none => []
+  | some keys =>
+    if exts.all (fun (n, r) => (r.startsWith "true") == keys.contains (toUpper n) || !(r.startsWith "true" || r.startsWith "false")) then []
+    else ["C10 a capability query inside TLS was not answered from the EHLO reply received inside TLS"]
+
 /-- `results`: the constructor's / SendMail's result first, then one per later call; `envelopeCall i` says whether
     the i-th later call carries envelope, credentials or content (MAIL, RCPT, DATA, AUTH, VRFY) -/
 def check (plainWritten : Bytes) (tls : String) (innerWritten : Bytes) (ctor : String) (later : List (Bool × String))
